@@ -14,19 +14,23 @@ from . import c06 as c06mod
 
 PID = "C07"
 CLAIM = dict(
-    text="Coq totality theorems over executable models, in an explicit exception monad with every partial Python primitive marked "
-         "(indexing, int() with the 4300-digit limit, str.encode / bytes.decode, base64.b64decode on non-ASCII text, .groups() of a "
-         "failed match, tuple unpacking, constructor validation, urlsplit(...).port), of parse_options_header, parse_list_header, "
-         "parse_dict_header, parse_set_header, parse_etags, parse_range_header, parse_content_range_header, parse_age, both "
-         "parse_cookie levels, Authorization / WWWAuthenticate.from_header, get_host and get_content_length: the result is never an "
-         "unrelated exception and never OutOfFuel (each loop has a progress lemma). The except clauses of the repaired code are "
-         "regenerated from the source. Hostile-input fuzzing (~40k cases per quick run) of every parser named in the property and "
-         "every public Request attribute compares value-or-exception-class with the model where there is one, under a per-case "
-         "wall-clock watchdog, with the oracle: documented result type or a werkzeug HTTPException.",
+    text="21 Coq theorems (all closed under the global context): totality, in an explicit exception monad with every partial Python "
+         "primitive marked (indexing, int() with the 4300-digit limit, str.encode / bytes.decode, base64.b64decode on non-ASCII text, "
+         ".groups() of a failed match, tuple unpacking, constructor validation, dict[key], urlsplit(...).port), of parse_options_header, "
+         "parse_list_header, parse_dict_header, parse_set_header, parse_etags, parse_range_header, parse_content_range_header, parse_age, "
+         "both parse_cookie levels, Authorization / WWWAuthenticate.from_header, the loop of parse_accept_header (exact float thresholds "
+         "for q), get_content_length and the query-string decoding of Request.args / full_path: the result is never an unrelated "
+         "exception and never OutOfFuel (each loop has a progress lemma); the port of the reconstructed URL is refuted (Host x:abc) "
+         "with a partial theorem under an explicit guard. The except clauses and decode modes of the repaired code are regenerated from "
+         "the source, so narrowing one breaks the proof. Hostile-input fuzzing (~225k evaluations per quick run) of every parser named in "
+         "the property and every public Request attribute compares value-or-exception-class with the model where there is one, under a "
+         "per-call wall-clock watchdog, with the oracle: documented result type or a werkzeug HTTPException.",
     note="Trusted: Coq kernel; translator tools/c07.py; extraction + driver; the C06 and C13 models (validated differentially); "
-         "base64.b64decode (non-strict) hand-modelled from binascii's algorithm; str.lower on Latin-1; email.utils date parsing, "
-         "float(), codecs.lookup, the idna codec, ipaddress and NFKC checks inside urlsplit, the form/multipart parser and "
-         "Accept matching are exercised by the harness only. Termination on the implementation is observed with a wall-clock limit.",
+         "binascii.a2b_base64 (non-strict) and urlsplit's netloc/port hand-modelled from their algorithms; str.lower on Latin-1; "
+         "email.utils date parsing, float() beyond the q thresholds, Accept matching / sorting and codecs.lookup, the idna codec, "
+         "ipaddress and NFKC checks inside urlsplit, the form/multipart parser and json are exercised by the harness only. "
+         "Termination of the implementation is observed with a wall-clock limit. Known findings kept: Request.url & co. raise ValueError "
+         "for a malformed port or bracket in Host.",
     design="6/C07")
 
 
@@ -297,15 +301,20 @@ def run(chk: Check) -> None:
     lines, impl, canon = [], [], []
     fl, fod, fz, exn = c06mod.fl, c06mod.fod, c06mod.fz, c06mod.exn
 
+    hung: dict = {}
+
     def observe(name, fn, arg, typ, line=None, show=None, cn=None, in_domain=True):
         """run one parser call under the watchdog; oracle = documented type or HTTPException; optional model line."""
         try:
+            if hung.get(name, 0) >= 4:
+                raise ImplTimeout()     # circuit breaker: this call site has already hung repeatedly
             r = with_timeout(fn, 3.0, arg)
             out = ("ok " + show(r)) if show else "ok"
             if in_domain and typ is not None and not typ(r):
                 chk.fail(f"{name}:wrong-type", f"{name} returned {type(r).__name__}: {r!r}"[:300], {"parser": name, "input": arg})
         except ImplTimeout:
             out = "timeout"
+            hung[name] = hung.get(name, 0) + 1
             if in_domain:
                 chk.fail(f"{name}:timeout", f"{name} did not return within 3 s", {"parser": name, "input": arg})
         except HTTPException as e:
@@ -400,13 +409,25 @@ def run(chk: Check) -> None:
             r.to_content_range_header(10)
         return r
 
+    def s_accept(a):
+        return "|".join(sorted(f"{cps(v)}={float(q)!r}" for v, q in a)) or "~"
+
+    def c_accept(b):
+        if not b.startswith("ok ") or b == "ok ~":
+            return b
+        out = []
+        for ent in b[3:].split("|"):
+            it, q = ent.split("=")
+            out.append(f"{it}={(1.0 if q == '~' else float(uncps(q)))!r}")
+        return "ok " + "|".join(sorted(out))
+
     PARSERS = [
         # name, callable, documented type, model command, show, canon
         ("parse_options_header", H.parse_options_header, lambda r: isinstance(r, tuple) and isinstance(r[0], str) and isinstance(r[1], dict), "popt", s_options, None),
         ("parse_list_header", H.parse_list_header, is_(list), "plist", lambda r: "", None),
         ("parse_dict_header", H.parse_dict_header, is_(dict), "pdict", fod, None),
         ("parse_set_header", H.parse_set_header, is_(ds.HeaderSet), None, None, None),
-        ("parse_accept_header", accept_use(ds.Accept), is_(ds.Accept), None, None, None),
+        ("parse_accept_header", accept_use(ds.Accept), is_(ds.Accept), "accept", s_accept, c_accept),
         ("parse_accept_header[MIME]", accept_use(ds.MIMEAccept), is_(ds.MIMEAccept), None, None, None),
         ("parse_accept_header[Charset]", accept_use(ds.CharsetAccept), is_(ds.CharsetAccept), None, None, None),
         ("parse_accept_header[Language]", accept_use(ds.LanguageAccept), is_(ds.LanguageAccept), None, None, None),
@@ -449,6 +470,8 @@ def run(chk: Check) -> None:
         run_parsers(gen_structured(rng))
     # control characters: outside the property's domain, model-vs-implementation only (no oracle),
     # never a trailing line feed for parse_etags (documented non-termination outside the domain)
+    for s in corpus["ctl"]:
+        run_parsers(s, in_domain=False)
     for _ in range(n // 4):
         s = gen_hostile(rng, ctl=True)
         if "\n" in s:
@@ -614,3 +637,43 @@ def main(chk: Check) -> None:
                     "placed in 1-3 client-controlled environ variables, through every public Request attribute; oracle: documented type or HTTPException, "
                     "3 s watchdog; model-vs-implementation on value or exception class for the modelled parsers (also on inputs with control characters). "
                     "Non-trivial = non-empty input; distinct by hash of (call site, input).")
+
+
+def replay(rep) -> int:
+    """re-run a replay file's input on the implementation and print what happens."""
+    import werkzeug.http as H
+    import werkzeug.sansio.http as SH
+    from werkzeug import datastructures as ds
+    from werkzeug.wrappers import Request
+    inp = rep.get("input") or (rep.get("broken") or [{}])[0].get("case")
+    print(json.dumps({k: rep.get(k) for k in ("property", "kind", "key", "what", "no_longer_checks")}, indent=1, default=repr))
+    if not isinstance(inp, dict) or "parser" not in inp:
+        print("replay input:", json.dumps(inp, indent=1, default=repr))
+        return 0
+    name, arg = inp["parser"], inp["input"]
+    table = {"parse_options_header": H.parse_options_header, "parse_list_header": H.parse_list_header, "parse_dict_header": H.parse_dict_header,
+             "parse_set_header": H.parse_set_header, "parse_etags": H.parse_etags, "parse_range_header": H.parse_range_header,
+             "parse_content_range_header": H.parse_content_range_header, "parse_if_range_header": H.parse_if_range_header, "parse_date": H.parse_date,
+             "parse_age": H.parse_age, "http.parse_cookie": H.parse_cookie, "sansio.parse_cookie": SH.parse_cookie, "parse_csp_header": H.parse_csp_header,
+             "Authorization.from_header": ds.Authorization.from_header, "WWWAuthenticate.from_header": ds.WWWAuthenticate.from_header,
+             "parse_accept_header": H.parse_accept_header, "parse_cache_control_header": H.parse_cache_control_header}
+    try:
+        if name.startswith("Request."):
+            env = {"REQUEST_METHOD": "GET", "SCRIPT_NAME": "", "PATH_INFO": "/", "QUERY_STRING": "", "SERVER_NAME": "localhost", "SERVER_PORT": "80",
+                   "wsgi.url_scheme": "http", "wsgi.input": io.BytesIO(b""), "wsgi.errors": sys.stderr}
+            env.update(arg)
+            out = with_timeout(lambda: getattr(Request(env), name.split(".", 1)[1].split("@")[0]), 5.0)
+        else:
+            fn = table.get(name.split("[")[0])
+            if fn is None:
+                print(f"no replay entry for {name}")
+                return 0
+            out = with_timeout(fn, 5.0, arg)
+        print(f"{name}({arg!r}) returned {out!r}")
+        return 0
+    except ImplTimeout:
+        print(f"{name}({arg!r}) did not return within 5 s")
+        return 1
+    except Exception as e:  # noqa: BLE001
+        print(f"{name}({arg!r}) raised {type(e).__name__}: {e}")
+        return 1
